@@ -96,7 +96,11 @@ fn one_slice(rep: &mut Report, rec: &mut Rec, len: usize, a: Option<i64>, b: Opt
 /// The slice inside a larger expression: what follows (a projection's right-hand
 /// side, a pipe, a flatten, a filter, a function call) and what precedes it must
 /// not change which elements are selected or their order.
-const CTX_FORMS: &[&str] = &["id", "bar", "flat", "filter", "first", "last", "length", "star", "again"];
+const CTX_FORMS: &[&str] = &["id", "bar", "flat", "filter", "first", "last", "length", "star", "again", "falsy", "lit"];
+
+/// Element i of the "falsy" documents: every falsy JSON value, zero, and two truthy ones;
+/// position 7 holds null, which a slice (a projection) drops from its result.
+const FALSY_KINDS: [&str; 8] = ["false", "\"\"", "[]", "{}", "0", "true", "\"x\"", "null"];
 
 fn one_ctx(rep: &mut Report, rec: &mut Rec, form: &str, len: usize, a: Option<i64>, b: Option<i64>, c: Option<i64>) {
     let step = c.unwrap_or(1);
@@ -119,6 +123,8 @@ fn one_ctx(rep: &mut Report, rec: &mut Rec, form: &str, len: usize, a: Option<i6
         "last" => (ints, format!("@{} | [-1]", sl)),
         "length" => (ints, format!("length(@{})", sl)),
         "star" => (Value::Array((0..len as i64).map(|i| json!([i])).collect()), format!("@{}[0]", sl)),
+        "falsy" => (Value::Array((0..len).map(|i| serde_json::from_str(FALSY_KINDS[i % 8]).unwrap()).collect()), format!("@{}", sl)),
+        "lit" => (json!(null), format!("`{}`{}", ints, sl)),
         _ => (ints, format!("@{} | @[::-1] | @[::-1]", sl)),
     };
     let got = match guarded(|| jmespath::compile(&text).and_then(|e| e.search(rcvar_of(&doc)))) {
@@ -135,6 +141,7 @@ fn one_ctx(rep: &mut Report, rec: &mut Rec, form: &str, len: usize, a: Option<i6
     let _ = writeln!(rec.out, "P {} {} {} {} {} | {}", form, len, part(a), part(b), part(c), shown);
     let idx = slice_indices(len as i128, a.map(|x| x as i128), b.map(|x| x as i128), step as i128);
     let want = match form {
+        "falsy" => format!("[{}]", idx.iter().map(|i| FALSY_KINDS[*i as usize % 8]).filter(|k| *k != "null").collect::<Vec<_>>().join(",")),
         "first" => idx.first().map(|i| i.to_string()).unwrap_or_else(|| "N".to_string()),
         "last" => idx.last().map(|i| i.to_string()).unwrap_or_else(|| "N".to_string()),
         "length" => idx.len().to_string(),
@@ -151,10 +158,17 @@ fn one_ctx(rep: &mut Report, rec: &mut Rec, form: &str, len: usize, a: Option<i6
 }
 
 fn one_index(rep: &mut Report, rec: &mut Rec, len: usize, n: i64) {
+    if len <= 40 && len > 0 {
+        // the same index applied to a literal array
+        index_case(rep, rec, len, n, &json!(null), &format!("`{}`[{}]", arr(len), n));
+    }
+    index_case(rep, rec, len, n, &arr(len), &format!("@[{}]", n));
+}
+
+fn index_case(rep: &mut Report, rec: &mut Rec, len: usize, n: i64, doc: &Value, text: &str) {
     rep.evaluations += 1;
-    let doc = arr(len);
-    let text = format!("@[{}]", n);
-    let got = guarded(|| jmespath::compile(&text).and_then(|e| e.search(rcvar_of(&doc))));
+    let text = text.to_string();
+    let got = guarded(|| jmespath::compile(&text).and_then(|e| e.search(rcvar_of(doc))));
     match got {
         Ok(Ok(v)) => {
             let shown = if v.is_null() { "N".to_string() } else { v.to_string() };
